@@ -241,4 +241,63 @@ pub proof fn lemma_shape_one_row(a: AArena<2>, in_dim: usize, p: usize)
     assert(1 <= n < 16 && (1usize << n) <= 2usize ==> n == 1) by (bit_vector);
 }
 
+// ---- disjoint interiors / cover ----
+// two paths from the same start along which the same input is routed agree as far as both go
+pub proof fn lemma_routed_agree(a: AArena<2>, p1: Seq<usize>, p2: Seq<usize>, x: V, k: int)
+    requires routed(a, p1, x), routed(a, p2, x), p1.len() > 0, p2.len() > 0, p1[0] == p2[0], 0 <= k < p1.len(), k < p2.len()
+    ensures p1[k] == p2[k]
+    decreases k
+{
+    if k > 0 {
+        lemma_routed_agree(a, p1, p2, x, k - 1);
+        assert(a[p1[k - 1]].children[decide(&a[p1[k - 1]].value.aff, x)] == Some(p1[k]));
+        assert(a[p2[k - 1]].children[decide(&a[p2[k - 1]].value.aff, x)] == Some(p2[k]));
+    }
+}
+// C09: the regions reported for two distinct terminals have disjoint interiors
+pub proof fn lemma_disjoint_interiors(a: AArena<2>, g1: PolyhedraGen, p1: Seq<usize>, g2: PolyhedraGen, p2: Seq<usize>, x: V, in_dim: usize)
+    requires gen_inv(a, g1, p1), gen_inv(a, g2, p2), aff_shape_ok(a, in_dim), x.len() == in_dim, leaf_ok(a), p1.len() > 0, p2.len() > 0, p1[0] == p2[0],
+        a.dom().contains(p1.last()), a.dom().contains(p2.last()), a[p1.last()].isleaf, a[p2.last()].isleaf, p1.last() != p2.last(),
+        forall|k: int| 0 <= k < g1.predicates@.len() ==> strictly_inside(#[trigger] g1.predicates@[k], x),
+        forall|k: int| 0 <= k < g2.predicates@.len() ==> strictly_inside(#[trigger] g2.predicates@[k], x),
+    ensures false
+{
+    lemma_interior_routed(a, g1, p1, x, in_dim);
+    lemma_interior_routed(a, g2, p2, x, in_dim);
+    // the shorter path ends in a node that the longer one passes (and leaves through a child): a leaf has no child
+    if p1.len() <= p2.len() {
+        lemma_routed_agree(a, p1, p2, x, p1.len() - 1);
+        if p1.len() < p2.len() {
+            let k = p1.len() - 1;
+            assert(a[p2[k]].children[decide(&a[p2[k]].value.aff, x)] == Some(p2[k + 1]));
+            assert(!no_kids(a[p2[k]]));
+        }
+    } else {
+        lemma_routed_agree(a, p2, p1, x, p2.len() - 1);
+        let k = p2.len() - 1;
+        assert(a[p1[k]].children[decide(&a[p1[k]].value.aff, x)] == Some(p1[k + 1]));
+        assert(!no_kids(a[p1[k]]));
+    }
+}
+// a tree without missing branches: every decision lists both children
+pub open spec fn total_tree(a: AArena<2>) -> bool {
+    forall|i: usize| #![trigger a[i].children] a.dom().contains(i) && !a[i].isleaf ==> a[i].children[0] is Some && a[i].children[1] is Some
+}
+// C09 (cover): in a tree without missing branches every input of the tree's dimension reaches a terminal
+pub proof fn lemma_total_defined(a: AArena<2>, h: Map<usize, nat>, in_dim: usize, idx: usize, x: V)
+    requires total_tree(a), aff_shape_ok(a, in_dim), kids_ok(a), ranked_down(a, h), a.dom().contains(idx), x.len() == in_dim
+    ensures tree_fn(a, h, idx, x) is Some
+    decreases h[idx]
+{
+    let nd = a[idx];
+    if !nd.isleaf {
+        lemma_shape_one_row(a, in_dim, idx);
+        lemma_decide_one(&nd.value.aff, x);
+        let l = decide(&nd.value.aff, x);
+        assert(nd.children[l] is Some);
+        let c = nd.children[l].unwrap();
+        assert(a.dom().contains(c) && h[c] < h[idx]);
+        lemma_total_defined(a, h, in_dim, c, x);
+    }
+}
 // ---- end regions_spec ----
